@@ -87,11 +87,12 @@ Fixpoint rd_upto (n : nat) (s : stream) : list D * stream :=
 Definition rd_weights (n : nat) (s : stream) : list D * stream :=
   match n with O => ([], s) | _ => let q := rd_upto n s in (fst q, skip_ws (snd q)) end.
 
-(* import_shape: the order on one line (first token), ALL tokens of the next line as sizes; their number must be the order *)
+(* import_shape: the order on one line (first token), ALL tokens of the next line as sizes; their number must be the order.
+   A sizes line that holds nothing (empty after strip()) is the shape () of an object WITHOUT modes (/repo b512e35) *)
 Definition rd_shape_z (s : stream) : option (list Z * stream) :=
   let p1 := readline s in let p2 := readline (snd p1) in
   n <- head_int (fst p1) ;; zs <- all_ints (fst p2) ;;
-  if negb (Z.eqb (Z.of_nat (length zs)) n) || Nat.eqb (length zs) 0 then None else Some (zs, snd p2).
+  if negb (Z.eqb (Z.of_nat (length zs)) n) then None else Some (zs, snd p2).
 (* ... and no size may be negative (the tensor / sptensor constructors and np.reshape are then given a proper shape) *)
 Definition rd_shape_l (s : stream) : option (shape * stream) :=
   p <- rd_shape_z s ;;
@@ -148,6 +149,9 @@ Fixpoint rd_factors_l (R n : nat) (s : stream) : option (list (list (list D))) :
       end
   end.
 
+(* a sparse file without modes that announces entries *)
+Definition order0_bad (sh : shape) (nz : nat) : bool := Nat.eqb (length sh) 0 && negb (Nat.eqb nz 0).
+
 Definition nat_of (z : Z) : option nat := if (0 <=? z)%Z then Some (Z.to_nat z) else None.
 
 Definition import_stream (b : Z) (s : stream) : option (obj D) :=
@@ -155,13 +159,17 @@ Definition import_stream (b : Z) (s : stream) : option (obj D) :=
   match fst p0 with
   | Word w :: _ =>
       if String.eqb w "tensor"%string then
-        sh <- rd_shape_l (snd p0) ;; v <- rd_vals (size (fst sh)) (snd sh) ;;
-        Some (OTensor (np_reshapeF d0 (mkDense [size (fst sh)] (fst v)) (fst sh)))
+        (* `np.prod(shape) if shape else 0` values: the tensor without modes holds no entry *)
+        sh <- rd_shape_l (snd p0) ;; v <- rd_vals (tsize (fst sh)) (snd sh) ;;
+        Some (OTensor (tensor_of D d0 (fst sh) (fst v)))
       else if String.eqb w "sptensor"%string then
         sh <- rd_shape_l (snd p0) ;;
         let pn := readline (snd sh) in
         zn <- head_int (fst pn) ;; nz <- nat_of zn ;;
         es <- rd_entries_l b (length (fst sh)) nz (snd pn) ;;
+        (* no mode: subs is an nz x 0 array, which the sptensor constructor takes for "no subscripts" — with nz > 0 values
+           it refuses ("Number of subscripts and values must be equal") *)
+        if order0_bad (fst sh) nz then None else
         if forallb (inb (fst sh)) (map fst es) then Some (OSptensor (mkSp (fst sh) (map fst es) (map snd es))) else None
       else if String.eqb w "matrix"%string then
         sh <- rd_shape_l (snd p0) ;;
@@ -174,6 +182,9 @@ Definition import_stream (b : Z) (s : stream) : option (obj D) :=
         sh <- rd_shape_z (snd p0) ;;
         let pr := readline (snd sh) in
         zr <- head_int (fst pr) ;; r <- nat_of zr ;;
+        (* no mode: rank line 0 gives ttb.ktensor() (after the readline below); any other rank ends in
+           ttb.ktensor([], weights), which raises (IndexError) *)
+        if Nat.eqb (length (fst sh)) 0 then (if Nat.eqb r 0 then Some (OKtensor (mkK [] [])) else None) else
         let w := rd_weights r (snd pr) in
         (* rank line 0: np.fromfile(count = 0) leaves the weights line (empty in what export writes), one readline drops it
            whatever it holds (/repo 20317ef) *)
